@@ -262,7 +262,7 @@ func cmdCheck(args []string) {
 	for _, o := range obls {
 		if isKnownObl(o) {
 			oblsKnown = append(oblsKnown, o)
-		} else if o.ExpectSat {
+		} else if o.ExpectSat || o.Canary {
 			oblsCover = append(oblsCover, o)
 		} else {
 			oblsMain = append(oblsMain, o)
@@ -310,6 +310,7 @@ func cmdCheck(args []string) {
 	}
 	var oblOuts []oblOut
 	nObl, nDis, nCover, nCoverOK, nKnown := 0, 0, 0, 0, 0
+	nCanary := 0
 	var solverMs int64
 	knownPrinted := map[string]bool{}
 	var knownLines []string
@@ -355,6 +356,9 @@ func cmdCheck(args []string) {
 			continue
 		}
 		nObl++
+		if o.Canary {
+			nCanary++
+		}
 		switch r.Status {
 		case "discharged":
 			nDis++
@@ -416,6 +420,7 @@ func cmdCheck(args []string) {
 		"trusted_base":             trustedBase,
 		"functions_under_contract": funcs,
 		"vacuity_covers":           map[string]int{"run": nCover, "sat": nCoverOK},
+		"canaries":                 map[string]interface{}{"run": nCanary, "meaning": "deliberately false postconditions (canary clauses of the contract files) that must not be provable; a proved canary is reported as a violation"},
 		"known_findings":           nKnown,
 		"known_finding_witnesses":  witnessOut,
 		"solver_ms_total":          solverMs,
